@@ -250,15 +250,11 @@ class C28:
                    "a message with `id: null`, or a notification carrying an id, may be answered or not"]
 
     def make_context(self, rank, root=None):
-        if root is None:
-            d = tempfile.mkdtemp(prefix=f"verif-{self.id}-{rank}-")
-        else:
-            d = os.path.join(root, f"w{rank}")
-            os.makedirs(d, exist_ok=True)
-        return {"dir": d, "n": 0}
+        d, own = common.make_work_dir(self.id, rank, root)
+        return {"dir": d, "n": 0, "own_root": own}
 
     def close_context(self, ctx):
-        shutil.rmtree(ctx["dir"], ignore_errors=True)
+        shutil.rmtree(ctx.get("own_root") or ctx["dir"], ignore_errors=True)
 
     def gen_case(self, rng, tier, index):
         delivery = rng.weighted([(4, "whole"), (3, "chunked"), (2, "eof_at_byte"), (2, "malformed_frame"), (1, "slow_consumer")])
@@ -388,7 +384,7 @@ class C28:
 
     def execute(self, ctx, case):
         ctx["n"] += 1
-        root = os.path.join(ctx["dir"], f"run{ctx['n']}")
+        root = os.path.join(ctx["dir"], f"run{ctx['n']:06d}")
         os.makedirs(root)
         w = worldsim.World(root, case["token"])
         try:
